@@ -139,9 +139,31 @@ func ComputeLocksets(p *Prog) *Locksets {
 	}
 	// exported functions and methods may be called from anywhere; methods may
 	// be called through interfaces
+	// named types whose values are converted to an interface somewhere in the
+	// module: their methods may be invoked dynamically
+	ifaceTypes := map[string]bool{}
+	for _, fn := range p.Funcs {
+		EachInstr(fn, func(i ssa.Instruction) {
+			if mi, ok := i.(*ssa.MakeInterface); ok {
+				ifaceTypes[NamedType(mi.X.Type())] = true
+			}
+		})
+	}
 	top := LockSet{"⊤": true}
 	for _, fn := range p.Funcs {
-		if escapes[fn] || len(callers[fn]) == 0 || fn.Signature.Recv() != nil && isExportedOrIface(fn) {
+		dyn := false
+		if recv := fn.Signature.Recv(); recv != nil && isExportedOrIface(fn) {
+			// exported method: callable from outside the module if the type is
+			// exported, or through an interface if the type is ever boxed
+			tn := NamedType(recv.Type())
+			exportedType := false
+			if i := strings.LastIndex(tn, "."); i >= 0 && i+1 < len(tn) {
+				ch := tn[i+1]
+				exportedType = ch >= 'A' && ch <= 'Z'
+			}
+			dyn = exportedType || ifaceTypes[tn]
+		}
+		if escapes[fn] || len(callers[fn]) == 0 || dyn {
 			ls.entry[fn] = LockSet{}
 		} else {
 			ls.entry[fn] = top
